@@ -1219,6 +1219,21 @@ func harvestPlaceholders() []string {
 					}
 				}
 			}
+			// whatever its spelling (__RE__, <re>, @re@): a constant SEARCH string of strings.Replace / ReplaceAll / NewReplacer of two
+			// bytes or more is a word some replacement looks for (the one-byte ones - quote, backslash, %, _ - are atoms already)
+			if call, ok := n.(*ast.CallExpr); ok {
+				if sel, ok := call.Fun.(*ast.SelectorExpr); ok && (sel.Sel.Name == "Replace" || sel.Sel.Name == "ReplaceAll" || sel.Sel.Name == "NewReplacer") {
+					for i, a := range call.Args {
+						bl, ok := a.(*ast.BasicLit)
+						if !ok || bl.Kind != token.STRING || (sel.Sel.Name == "NewReplacer" && i%2 == 1) || (sel.Sel.Name != "NewReplacer" && i != 1) {
+							continue
+						}
+						if s, err := strconv.Unquote(bl.Value); err == nil && len(s) >= 2 && len(s) <= 24 {
+							seen[s] = true
+						}
+					}
+				}
+			}
 			return true
 		})
 		return nil
